@@ -49,6 +49,9 @@ def refusalClause (persistent block : Bool) (cap sizeBefore el : Int) (st : Stri
 def blockedClause (persistent : Bool) (size : Int) (noneUnfinished : Bool) (blockedForSpace : Nat) : Bool :=
   blockedForSpace == 0 || (if persistent then !noneUnfinished else size != 0)
 
+/-- consumer wake-up clause: at quiescence no request is queued while a consumer is parked in `Read` -/
+def parkedClause (queued parked : Nat) : Bool := queued == 0 || parked == 0
+
 /-- wait_for_result clause: a returned result equals the recorded outcome of the producer's own request -/
 def routingClause (outcomes : List (Nat × Nat)) (p : Nat) (st : String) : Bool :=
   match outcomes.lookup p with
@@ -115,6 +118,13 @@ def Mon.onOp (m : Mon) (toks : List String) : Mon :=
     match p.toNat? with
     | some p => { m with cancelled := p :: m.cancelled }
     | none => m
+  | "burst" :: rest =>
+    let rec go : List String → List (Nat × Int) → List (Nat × Int)
+      | p :: el :: r, acc => match p.toNat?, el.toInt? with
+        | some p, some el => go r ((p, el) :: acc)
+        | _, _ => acc
+      | _, acc => acc
+    { m with els := go rest [] ++ m.els }
   | ["done", id, e] =>
     match id.toNat?, e.toNat? with
     | some id, some e =>
@@ -185,6 +195,9 @@ def Mon.onObs (m : Mon) (toks : List String) : Mon :=
       -- never left blocked (for space) while the queue is empty
       let blockedForSpace := cur.ps.filter (fun (p, st) => st == "B" && !(m.accepted.contains p))
       let m := m.failIf (!(blockedClause m.persistent cur.size unfinished.isEmpty blockedForSpace.length)) "C02/queue/blocked-while-empty" s!"blocked={blockedForSpace.map (·.1)}{at_}"
+      -- consumer side: nothing queued beside a parked consumer
+      let parked := (cur.cs.filter (fun (_, st) => st == "B")).length
+      let m := m.failIf (!(parkedClause cur.q.length parked)) "C02/queue/request-waits-beside-parked-consumer" s!"queued={cur.q} parked-consumers={parked}{at_}"
       -- a blocked producer whose context ended must have returned
       let m := m.failIf (cur.ps.any (fun (p, st) => st == "B" && m.cancelled.contains p)) "C02/queue/cancelled-still-blocked" at_
       { m with prev := cur }
@@ -277,6 +290,7 @@ inductive SEv
   | fin (id : Nat) (e : Nat)
   | size (n : Int)
   | final (n : Int)
+  | stall (handed want : Nat)   -- `want` requests enqueued back to back with `want` consumers idle and completions held back: how many were handed over
 deriving Repr, DecidableEq
 
 structure SCfg where
@@ -323,9 +337,13 @@ def soakFifo (c : SCfg) (evs : List SEv) : Bool :=
 def soakRouting (c : SCfg) (evs : List SEv) : Bool :=
   !c.wfr || (retsOf evs).all (fun r => !(surelyQueued c r) || routingClause (finsOf evs) r.1 r.2.2)
 
+/-- every request enqueued while enough consumers were idle was handed over although earlier ones were still in flight -/
+def soakStall (evs : List SEv) : Bool :=
+  evs.all (fun e => match e with | .stall h w => decide (w ≤ h) | _ => true)
+
 /-- every schedule-independent clause at once (sound: `C02_check_soak_sound`) -/
 def soakAll (c : SCfg) (evs : List SEv) : Bool :=
-  soakOnce evs && soakOnlyAccepted c evs && soakAllHanded c evs && soakSizes c evs && soakFifo c evs && soakRouting c evs
+  soakOnce evs && soakOnlyAccepted c evs && soakAllHanded c evs && soakSizes c evs && soakFifo c evs && soakRouting c evs && soakStall evs
 
 def soakVerdict (c : SCfg) (evs : List SEv) : List String :=
   if soakAll c evs then ["prop soak=ok"]
@@ -336,7 +354,8 @@ def soakVerdict (c : SCfg) (evs : List SEv) : List String :=
     [s!"prop soak=FAIL sig=C02/soak/accepted-never-handed {((retsOf evs).filter (fun r => surelyQueued c r && !((handedOf evs).contains r.1))).map (·.1)}"]
   else if !soakSizes c evs then [s!"prop soak=FAIL sig=C02/soak/size-out-of-bounds-or-final-nonzero sizes={(sizesOf evs).eraseDups} final={finalsOf evs} cap={c.cap}"]
   else if !soakFifo c evs then [s!"prop soak=FAIL sig=C02/soak/single-consumer-order handed={handedOf evs}"]
-  else [s!"prop soak=FAIL sig=C02/soak/result-crosstalk"]
+  else if !soakRouting c evs then [s!"prop soak=FAIL sig=C02/soak/result-crosstalk"]
+  else [s!"prop soak=FAIL sig=C02/soak/request-waits-beside-idle-consumer {evs.filterMap (fun e => match e with | .stall h w => some (h, w) | _ => none)}"]
 
 def parseSEv (toks : List String) : Option SEv :=
   match toks with
@@ -349,6 +368,9 @@ def parseSEv (toks : List String) : Option SEv :=
     | _, _ => none
   | ["size", n] => n.toInt?.map SEv.size
   | ["final", n] => n.toInt?.map SEv.final
+  | ["stall", h, w] => match h.toNat?, w.toNat? with
+    | some h, some w => some (.stall h w)
+    | _, _ => none
   | _ => none
 
 end OtelVerif.C02.Check
